@@ -10,6 +10,7 @@
 //                                                                                  fresh copies of the same bytes)
 //   forth_run            ss as forth_begin                            -> K_INT error code   (C++ run(inputs))
 //   forth_step | forth_resume                                         -> K_INT error code
+//   forth_step_n         ia=[n]  up to n steps, stops at an error or when done -> K_INT last error code, h2 = steps taken
 //   forth_call           ss=[word]                                    -> K_INT error code
 //   forth_call_index     ia=[index]                                   -> K_INT error code
 //   forth_reset | forth_stack_clear | forth_count_reset               -> none
@@ -231,6 +232,16 @@ namespace {
       ret_int(out, (int64_t)m.run(ins)); return true;
     }
     if (op == "forth_step") { ret_int(out, (int64_t)m.step()); return true; }
+    if (op == "forth_step_n") {
+      // up to ia[0] single steps, stopping at the first error or when the program is done; -> i = last error code, h2 = steps taken
+      int64_t n = ia.at(0), taken = 0, err = 0;
+      while (taken < n) {
+        err = (int64_t)m.step();
+        taken++;
+        if (err != 0 || m.is_done()) break;
+      }
+      ret_int(out, err); out->h2 = taken; return true;
+    }
     if (op == "forth_resume") { ret_int(out, (int64_t)m.resume()); return true; }
     if (op == "forth_call") { ret_int(out, (int64_t)m.call(ss.at(0))); return true; }
     if (op == "forth_call_index") {
